@@ -191,10 +191,17 @@ func c16Case(w *core.Worker, i int) {
 		case op <= 10:
 			pos, num := "", 0
 			L := len(c.rows)
-			nums := []int{0, 1, -1, L, -L, L + 1, -(L + 1), 2, 1000000000000, math.MaxInt64, math.MinInt64}
+			nums := []int{0, 1, -1, L, -L, L + 1, -(L + 1), 2, 1000000000000, math.MaxInt64, math.MinInt64, math.MaxInt64 - 1, math.MinInt64 + 1}
 			numText := func(n int) string {
 				if n == math.MinInt64 {
 					return "(-9223372036854775807 - 1)" // the literal itself is not an integer literal
+				}
+				// positions given as floats far beyond every integer: beyond the last / before the first row
+				if n == math.MaxInt64-1 {
+					return "1e30"
+				}
+				if n == math.MinInt64+1 {
+					return "-1e30"
 				}
 				return fmt.Sprint(n)
 			}
